@@ -115,7 +115,9 @@ func (g *gen) importDeclaration() {
 		g.use("importDeclaration.single")
 		g.qualifiedName(3)
 		g.glue(".")
-		g.glue(g.tname())
+		name := g.tname()
+		g.glue(name)
+		g.imported = append(g.imported, name)
 	case 1:
 		g.use("importDeclaration.wildcard")
 		g.qualifiedName(3)
@@ -141,7 +143,9 @@ func (g *gen) importDeclaration() {
 		// a type of the unnamed package: the name has a single segment
 		g.use("importDeclaration.single")
 		g.use("importDeclaration.singleSegment")
-		g.w(g.tname())
+		name := g.tname()
+		g.w(name)
+		g.imported = append(g.imported, name)
 	case 5:
 		g.use("importDeclaration.static")
 		g.use("importDeclaration.singleSegment")
@@ -155,7 +159,9 @@ func (g *gen) importDeclaration() {
 		g.glue(".")
 		g.glue("nb")
 		g.glue(".")
-		g.glue([]string{"NbAlpha", "NbOmega", "NbService", "NbBody"}[g.n(4)])
+		name := []string{"NbAlpha", "NbOmega", "NbService", "NbBody"}[g.n(4)]
+		g.glue(name)
+		g.imported = append(g.imported, name)
 	case 7:
 		g.use("importDeclaration.wildcard")
 		g.use("importDeclaration.neighbour")
@@ -296,6 +302,7 @@ func (g *gen) classDeclaration() {
 	name := g.tname()
 	g.cls = append(g.cls, name)
 	defer func() { g.cls = g.cls[:len(g.cls)-1] }()
+	defer g.release(g.mark()) // the fields of the class
 	g.w("class", name)
 	if g.pickW(4, 1) == 1 {
 		g.use("classDeclaration.typeParameters")
@@ -327,8 +334,10 @@ func (g *gen) classDeclaration() {
 		g.w("{")
 		g.memberModifiers("method")
 		g.w("String", "serve")
+		m := g.mark()
 		g.formalParameters(false)
 		g.block(false)
+		g.release(m)
 		for i, k := 0, g.pickW(3, 3, 2, 1); i < k; i++ {
 			g.classBodyDeclaration("class")
 		}
@@ -342,6 +351,7 @@ func (g *gen) classDeclaration() {
 func (g *gen) classBody(kind string) {
 	g.depth++
 	defer func() { g.depth-- }()
+	defer g.release(g.mark()) // the fields of the body
 	g.w("{")
 	k := g.pickW(2, 3, 4, 4, 3, 3, 2, 2, 1)
 	for i := 0; i < k; i++ {
@@ -421,7 +431,7 @@ func (g *gen) classBodyDeclaration(kind string) {
 		g.use("memberDeclaration.field")
 		g.memberModifiers("field")
 		g.typeType(true, true)
-		g.variableDeclarators()
+		g.variableDeclarators("field")
 		g.w(";")
 	case 2:
 		if kind == "anonymous" || len(g.cls) == 0 {
@@ -437,9 +447,11 @@ func (g *gen) classBodyDeclaration(kind string) {
 			g.use("memberDeclaration.constructor")
 		}
 		g.w(g.cls[len(g.cls)-1])
+		m := g.mark()
 		g.formalParameters(true)
 		g.throwsClause()
 		g.block(true)
+		g.release(m)
 	case 3:
 		g.use("classBodyDeclaration.semi")
 		g.w(";")
@@ -525,6 +537,7 @@ func (g *gen) methodDeclaration(noBody bool) {
 		g.typeType(true, true)
 	}
 	g.w(g.lname())
+	defer g.release(g.mark()) // the parameters
 	g.formalParameters(false)
 	g.dims(4, "methodDeclaration.dims")
 	g.throwsClause()
@@ -593,8 +606,12 @@ func (g *gen) formalParameterList(allowVarargs bool) {
 		g.use("formalParameter")
 		g.variableModifiers()
 		g.typeType(true, true)
-		g.w(g.lname())
-		g.dims(5, "variableDeclaratorId.dims")
+		name := g.lname()
+		g.w(name)
+		if g.dimsN(5, "variableDeclaratorId.dims") > 0 {
+			g.lastShape = "array"
+		}
+		g.declare(name, "parameter")
 	}
 	if varargs {
 		if k > 0 {
@@ -607,7 +624,9 @@ func (g *gen) formalParameterList(allowVarargs bool) {
 			g.use("lastFormalParameter.annotatedEllipsis")
 			g.annotation(false)
 		}
-		g.w("...", g.lname())
+		name := g.lname()
+		g.w("...", name)
+		g.declareAs(name, "parameter", "array", false)
 	}
 }
 
@@ -630,6 +649,7 @@ func (g *gen) interfaceDeclaration() {
 	}
 	g.depth++
 	defer func() { g.depth-- }()
+	defer g.release(g.mark()) // the constants of the interface
 	g.w("{")
 	k := g.pickW(2, 3, 3, 3, 2, 2, 1)
 	for i := 0; i < k; i++ {
@@ -659,7 +679,9 @@ func (g *gen) interfaceBodyDeclaration() {
 			g.use("interfaceMemberDeclaration.const")
 			g.w([]string{"volatile", "transient", "static transient"}[g.n(3)])
 			g.typeType(false, true)
-			g.w(g.lname(), "=")
+			name := g.lname()
+			g.w(name, "=")
+			g.declare(name, "field")
 			g.variableInitializer()
 			g.w(";")
 		}
@@ -678,14 +700,17 @@ func (g *gen) interfaceBodyDeclaration() {
 			g.w([]string{"public", "static", "final", "public static final"}[g.n(4)])
 		}
 		g.typeType(false, true)
+		shape, shapeAnn := g.lastShape, g.lastAnn
 		k := 1 + g.pickW(5, 1)
 		for i := 0; i < k; i++ {
 			if i > 0 {
 				g.w(",")
 			}
-			g.w(g.lname())
+			name := g.lname()
+			g.w(name)
 			g.dims(8, "constantDeclarator.dims")
 			g.w("=")
+			g.declareAs(name, "field", shape, shapeAnn)
 			g.variableInitializer()
 		}
 		g.w(";")
@@ -735,6 +760,7 @@ func (g *gen) enumDeclaration() {
 	name := g.tname()
 	g.cls = append(g.cls, name)
 	defer func() { g.cls = g.cls[:len(g.cls)-1] }()
+	defer g.release(g.mark()) // the fields of the enum
 	g.w("enum", name)
 	if g.pickW(3, 1) == 1 {
 		g.use("enumDeclaration.implements")
@@ -787,6 +813,7 @@ func (g *gen) recordDeclaration() {
 	name := g.tname()
 	g.cls = append(g.cls, name)
 	defer func() { g.cls = g.cls[:len(g.cls)-1] }()
+	defer g.release(g.mark()) // the components and fields of the record
 	g.w("record", name)
 	if g.pickW(4, 1) == 1 {
 		g.use("recordDeclaration.typeParameters")
@@ -800,7 +827,9 @@ func (g *gen) recordDeclaration() {
 		}
 		g.use("recordComponent")
 		g.typeType(true, true)
-		g.w(g.lname())
+		cname := g.lname()
+		g.w(cname)
+		g.declare(cname, "recordComponent")
 	}
 	if k == 0 {
 		g.use("recordHeader.empty")
